@@ -136,4 +136,67 @@ theorem basePart_long (c : SplitCfg) :
   unfold basePart SplitCfg.globstarlong
   split <;> simp_all
 
+theorem gen_NODOTDIR : Gen.FNODOTDIR = 2 ^ 20 := by decide
+
+/-- NODOTDIR is forced unless SCANDOTDIR (glob.py 434-435), for every flag word -/
+theorem nodotdir_forced (n : Nat) (ex b fd : Bool) (h : (GInit.ofNat n ex b fd).scandotdir = false) :
+    (GInit.ofNat n ex b fd).flags.nodotdir = true := by
+  simp only [GInit.ofNat] at h
+  simp only [GInit.ofNat, Flags.ofNat]
+  unfold initWord
+  rw [h]
+  simp only [Bool.not_false, Bool.true_and]
+  cases hb : hasBit (initWord0 (initStrip n ex)) Gen.FNODOTDIR with
+  | true => simp [hb]
+  | false =>
+    simp only [Bool.not_false, if_true]
+    rw [gen_NODOTDIR, hasBit_pow]
+    have : Nat.testBit (2 ^ 20) 20 = true := by decide
+    simp [Nat.testBit_or, this]
+
+theorem parseItemsInto_nounique (g : GInit) :
+    ∀ (items : List (Bool × List Char)) (o o' : GlobObj), parseItemsInto g items o = .ok o' →
+      o'.nounique = o.nounique := by
+  intro items
+  induction items with
+  | nil => intro o o' h; simp [parseItemsInto] at h; rw [h]
+  | cons it rest ih =>
+    intro o o' h
+    obtain ⟨neg, p⟩ := it
+    cases neg with
+    | true =>
+      simp only [parseItemsInto] at h
+      split at h
+      · cases h
+      · have := ih _ _ h; simpa using this
+    | false =>
+      simp only [parseItemsInto] at h
+      split at h
+      · cases h
+      · have := ih _ _ h; simpa using this
+
+/-- the "single pattern ⇒ no seen set" shortcut of `_parse_patterns` (539-546) is taken only
+    when NODOTDIR is not in force -/
+theorem shortcut_needs_no_nodotdir (g : GInit) (exps : List (List (List Char))) (fn : Bool) (o o' : GlobObj)
+    (hn : g.flags.nodotdir = true) (h : parsePatterns g exps fn o = .ok o') : o'.nounique = o.nounique := by
+  unfold parsePatterns at h
+  split at h
+  · cases h
+  · rename_i o1 h1
+    have e1 : o1.nounique = o.nounique := parseItemsInto_nounique g _ _ _ h1
+    split at h
+    · cases h
+    · rename_i o2 h2
+      have e2 : o2.nounique = o1.nounique := by
+        split at h2
+        · cases hs : globSplit { g.flags with globstar := true } g.isBytes ['*', '*'] with
+          | error e => simp [hs, Except.map] at h2
+          | ok ps => simp [hs, Except.map] at h2; subst h2; rfl
+        · cases h2; rfl
+      have hcond : ∀ (x : GlobObj), (!fn && decide (x.pattern.length ≤ 1) && !g.flags.nodotdir && !x.nounique &&
+          !(g.pathlib && g.scandotdir)) = false := by
+        intro x; simp [hn]
+      simp only [hcond, Bool.false_eq_true, if_false] at h
+      split at h <;> cases h <;> simp [e1, e2]
+
 end WcModel
